@@ -38,13 +38,17 @@ import Pog.Props.ClientGen
   C07, "the tag client is reachable as a property of APIClient" (Pog/Model/ClientGen.lean mirrors `ClientVisitor.visit`,
   `_generate_client_implementation`, `generate_client_protocol`, `generate_client_mock_class` as class SKELETONS; tied by vf/corr/client.py;
   proved in Pog/Props/ClientGen.lean, claimed here):
-    every_tag_group_has_a_property         every tag of every operation (or `default`) has the property `sanModule(canonical tag)` returning
-                                           `sanClass(canonical)+"Client"`; one property per distinct normalised key (`property_count`)
-    tag_clients_are_properties             the properties are a permutation of the emitter's tag clients (module, class)
-    properties_survive_partial             every property survives in the finished class for ASCII tags with no `request` / `close` group
-    ✗ property_shadowed_counterexample / property_names_counterexample (F64)   a tag `request` / `close` / `transport`
+    every_tag_group_has_a_property         every tag of every operation (or `default`) has the property `tagAttr(sanModule(canonical tag))`
+                                           returning `sanClass(canonical)+"Client"`; one property per distinct normalised key (`property_count`)
+    tag_clients_are_properties             the properties are a permutation of the emitter's tag clients (`_tag_attr_name(module)`, class)
+    property_names (F64 repaired)          for EVERY input no property is named like one of APIClient's own members (`request`, `close`,
+                                           `transport`, `config`, `_base_url`, the dunder methods, `self`); `tag_attr_unchanged_iff`: ordinary
+                                           tags keep their names
+    properties_not_shadowed_by_methods     for every input no property is replaced by a method of the class body
+    properties_survive_partial             every property survives in the finished class for ASCII tags (the exclusion of `request` / `close` is gone)
+    property_shadowed_former_witness / property_names_former_witness   the tags `request` / `close` / `Transport` are `request_` / `close_` / `transport_`
 -/
--- INDEX Pog.ClientGenProps: visit_never_raises, tag_tuples_one_per_key, tag_tuples_sorted_by_key, every_tag_group_has_a_property, property_count, tag_clients_are_properties, properties_survive_partial, property_shadowed_counterexample, property_names_counterexample, property_names_partial
+-- INDEX Pog.ClientGenProps: visit_never_raises, tag_tuples_one_per_key, tag_tuples_sorted_by_key, every_tag_group_has_a_property, property_count, tag_clients_are_properties, tag_attr_unchanged_iff, property_names_are_tag_attrs, property_names, properties_not_shadowed_by_methods, properties_survive_partial, property_shadowed_former_witness, property_names_former_witness
 namespace Pog.C07
 open Pog Pog.Ops
 
@@ -329,11 +333,13 @@ example : parseSucceeds UInfo.ascii .operationId
     document, its final method name `name` (pairwise distinct over the document, `method_names_distinct`; `sanitize_method_name` of
     the id the selected strategy derives, possibly with a numeric suffix, `method_name_follows_own_id`) and EVERY tag `t` of it (or
     `default`):
-    * `APIClient` has a property named `sanitize_module_name(c)` returning `sanitize_class_name(c) + "Client"`, `c` the canonical
+    * `APIClient` has a property named `_tag_attr_name(sanitize_module_name(c))` (the module name, with a trailing underscore when it
+      collides with one of APIClient's own members - F64 repaired, `ClientGenProps.property_names`: the property is never shadowed by a
+      member) returning `sanitize_class_name(c) + "Client"`, `c` the canonical
       spelling of `t`'s tag group (same normalised key as `t`), and
     * the client of that tag group defines `name` exactly ONCE.
     What the theorem does not carry: that the class written to `endpoints/<module>.py` is the one the property imports (the import
-    lines of `client.py` are part of the ClientGen skeleton correspondence), and the hypothesis' complement (a node that makes the parser raise, a float / bool / null status key - `dropped_iff`) and F64. -/
+    lines of `client.py` are part of the ClientGen skeleton correspondence), and the hypothesis' complement (a node that makes the parser raise, a float / bool / null status key - `dropped_iff`). -/
 theorem reachable_through_apiclient_partial (u : UInfo) (st : Naming) (direct : Bool) (paths : Paths)
     (hs : parseSucceeds u st paths = true)
     (o : IROp) (name : Str) (ho : (o, name) ∈ (parseOps u st paths).1.zip (finalMethodNames direct (parseOps u st paths).1))
@@ -341,7 +347,7 @@ theorem reachable_through_apiclient_partial (u : UInfo) (st : Naming) (direct : 
     let ops := (parseOps u st paths).1
     let tagss := ops.map (·.tags)
     let c := ClientGen.canonicalTag u tagss (normTagKey u t)
-    (sanModule u c, sanClass c ++ kClientSuffix) ∈ (ClientGen.apiClientSkel (ClientGen.tagTuples u tagss)).props ∧
+    (ClientGen.tagAttr (sanModule u c), sanClass c ++ kClientSuffix) ∈ (ClientGen.apiClientSkel (ClientGen.tagTuples u tagss)).props ∧
     normTagKey u c = normTagKey u t ∧
     (clientMethods u direct ops (normTagKey u t)).count name = 1 := by
   intro ops tagss c
